@@ -47,12 +47,63 @@ RULE = ("slices of 0..7 nodes/services/facilities over 3 sites with several Port
         "non-trivial = >= 2 services needing a site attribute; distinct by (canonical slice in stored order, entry point)")
 
 RESOURCE_CATEGORY = "urn:oasis:names:tc:xacml:3.0:attribute-category:resource"
-SITES = ["A", "B", "C"]
-PORTS = ["p1", "p2", "p3", "q1", "q2"]
 LISTED = ["PortMirror", "FABNetv4Ext", "FABNetv6Ext"]
-OTHER_ST = ["L2Bridge", "L2STS", "L2PTP", "FABNetv4", "FABNetv6", "OVS", "P4", "VLAN", "L3VPN"]
+# every other member of ServiceType (FABNetv4 / FABNetv6 are proper prefixes of two listed type names)
+OTHER_ST = ["L2Bridge", "L2STS", "L2PTP", "FABNetv4", "FABNetv6", "OVS", "P4", "VLAN", "L3VPN", "MPLS", "L2Path", "L2Multisite"]
 CTYPES = ["GPU", "SmartNIC", "SharedNIC", "FPGA", "NVME", "Storage"]
 NTYPES = ["VM", "VM", "VM", "Switch", "Server", "Container", "NAS", "Facility"]
+
+# Name families.  Every family is built so that its members are related as strings - proper prefix, extension by a
+# sub-interface / digit suffix, substring, case variant, surrounding blank, empty string, non-ASCII - because the class of
+# breakage to be seen is "a test written with startswith / in / find / lower() where exact equality is meant" (port names,
+# site names, element names).  The generators draw ONLY from these families, so related names meet in most slices.
+PORT_FAM = ["HundredGigE0/0/0/1", "HundredGigE0/0/0/10", "HundredGigE0/0/0/1.100", "HundredGigE0/0/0/", "hundredgige0/0/0/1",
+            "p1", "p10", "p", "1p", "P1", "p1 ", "", "\u043f\u043e\u0440\u04421"]
+SITE_FAM = ["A", "AB", "ABC", "B", "a", "A ", "RENC", "RENC1", "ENC", "UNKNOWN-SITE", "UNKNOWN", "\u00c4", "\u30b5\u30a4\u30c8"]
+NODE_FAM = ["n1", "n10", "n11", "nn", "N1", "n1-c1", "n2", "n1.1", "F1", "\u00f11"]      # sliver names: ^[\w\-\.]{2,255}$
+SVC_FAM = ["s1", "s10", "s11", "ss", "S1", "s1-ns", "s2", "s1.1", "n1", "\u015b1"]
+FAC_FAM = ["F1", "F10", "FF", "f1", "F1-ns", "\u04241"]
+# the families shrunk to what the topology API and the GraphML writer accept unchanged (no blanks at the ends, no '-')
+T_PORT_FAM = ["HundredGigE0/0/0/1", "HundredGigE0/0/0/10", "HundredGigE0/0/0/1.100", "HundredGigE0/0/0/", "p1", "p10", "p", "P1"]
+T_SITE_FAM = ["A", "AB", "ABC", "B", "a", "RENC", "RENC1", "ENC", "UNKNOWN-SITE", "\u00c4"]
+T_NODE_FAM = ["n1", "n10", "n11", "nn", "N1", "n2"]
+T_COMP_FAM = ["c1", "c10", "cc", "C1"]
+
+
+def name_rel(a, b):
+    """how string a relates to string b (the classes the generators are meant to cover; printed into the evidence)"""
+    if a is None or b is None:
+        return "none"
+    if a == b:
+        return "equal"
+    if a == "" or b == "":
+        return "empty"
+    if b.startswith(a):
+        return "proper-prefix-of"
+    if a.startswith(b):
+        return "extends"
+    if a in b or b in a:
+        return "substring"
+    if a.lower() == b.lower():
+        return "case-variant"
+    return "unrelated"
+
+
+def mirror_relations(sl):
+    """for every PortMirror service of the slice: the closest relation of its mirrored port to an in-slice port"""
+    inports = [d[0] for d in sl["ifaces"] if d]
+    rank = ["equal", "extends", "proper-prefix-of", "case-variant", "substring", "empty", "none", "unrelated"]
+    out = []
+    for s in sl["svcs"]:
+        if s["t"] == "PortMirror":
+            rels = [name_rel(s["mp"], p) for p in inports] or ["no-inport"]
+            out.append(min(rels, key=lambda r: rank.index(r) if r in rank else 99))
+    return out
+
+
+def site_relations(sl):
+    sites = sorted({x["site"] for x in sl["nodes"] + sl["svcs"] if x["site"]})
+    return sorted({name_rel(a, b) for a in sites for b in sites if a < b} - {"unrelated"})
 
 
 def _short(key):
@@ -75,6 +126,9 @@ def mk_node_sliver(n):
         s.set_capacities(Capacities(core=n["caps"][0], ram=n["caps"][1], disk=n["caps"][2]))
     if n.get("alloc") is not None:
         s.set_capacity_allocations(Capacities(core=n["alloc"][0], ram=n["alloc"][1], disk=n["alloc"][2]))
+    if n.get("hints") is not None:
+        from fim.slivers.capacities_labels import CapacityHints
+        s.set_capacity_hints(CapacityHints(instance_type=n["hints"]))
     if n.get("comps") is not None:
         aci = AttachedComponentsInfo()
         for i, c in enumerate(n["comps"]):
@@ -242,34 +296,44 @@ def gen_slice(rng, size):
     nn = rng.randint(0, size)
     ns = rng.randint(0, size)
     nf = rng.choice([0, 0, 1, 2])
-    inports = rng.sample(PORTS, rng.randint(0, 3))
-    sites = SITES[:rng.randint(1, 3)]
+    inports = rng.sample(PORT_FAM, rng.randint(0, 3))
+    sites = rng.sample(SITE_FAM, rng.randint(1, 3))
+    if rng.random() < 0.3:
+        # the old plain pools, kept so that unrelated names stay covered too
+        sites = ["A", "B", "C"][:rng.randint(1, 3)]
 
     def site():
         r = rng.random()
         return None if r < 0.06 else ("" if r < 0.1 else rng.choice(sites))
     nodes = []
-    for i in range(nn):
+    for i, name in enumerate(rng.sample(NODE_FAM, nn)):
         c = rng.choice([1, 2, 4, 8, 0])
-        nodes.append({"name": "n%d" % i, "t": rng.choice(NTYPES), "site": site(),
-                      "caps": None if rng.random() < 0.25 else [c, rng.choice([0, 8, 16]), rng.choice([10, 100])],
+        caps = None if rng.random() < 0.25 else [c, rng.choice([0, 8, 16]), rng.choice([10, 100])]
+        nodes.append({"name": name, "t": rng.choice(NTYPES), "site": site(), "caps": caps,
                       "alloc": [rng.choice([1, 2, 6]), 4, 10] if rng.random() < 0.15 else None,
+                      # a VM sized by an instance-type hint only (no capacities): still a VM for the accounting summary
+                      "hints": "fabric.c4.m16.d10" if (caps is None and rng.random() < 0.5) else None,
                       "comps": None if rng.random() < 0.3 else [rng.choice(CTYPES) for _ in range(rng.randint(0, 3))]})
     svcs = []
-    for i in range(ns):
+    for i, name in enumerate(rng.sample(SVC_FAM, ns)):
         t = rng.choice(LISTED) if rng.random() < 0.75 else rng.choice(OTHER_ST)
         mp = None
         if t == "PortMirror":
-            mp = rng.choice(PORTS) if rng.random() < 0.95 else None
+            r = rng.random()
+            # an in-slice port itself, a relative of one (prefix / suffix / case ...), any family member, or none
+            if r < 0.3 and inports:
+                mp = rng.choice(inports)
+            elif r < 0.95:
+                mp = rng.choice(PORT_FAM)
         elif rng.random() < 0.05:
-            mp = rng.choice(PORTS)
-        svcs.append({"name": "s%d" % i, "t": t, "site": site(),
+            mp = rng.choice(PORT_FAM)
+        svcs.append({"name": name, "t": t, "site": site(),
                      "bw": rng.choice([0, 1, 10, 100]) if rng.random() < 0.4 else None, "mp": mp})
     ifaces = [[p] for p in inports]
     for _ in range(rng.randint(0, 2)):
         ifaces.append(rng.choice([None, [], [None]]))
     rng.shuffle(ifaces)
-    return {"nodes": nodes, "svcs": svcs, "facs": ["F%d" % i for i in range(nf)], "ifaces": ifaces}
+    return {"nodes": nodes, "svcs": svcs, "facs": rng.sample(FAC_FAM, nf), "ifaces": ifaces}
 
 
 def _sv(name, t, site, mp=None, bw=None):
@@ -293,6 +357,35 @@ def corner_slices():
          "svcs": [_sv("b1", "L2Bridge", "S", bw=0), _sv("m1", "PortMirror", "T", "p1"), _sv("m2", "PortMirror", "T", "p1")],
          "facs": [], "ifaces": [["p1"], ["p1"]]},
     ]
+    return out
+
+
+def relation_slices():
+    """Small-scope exhaustive part: every ordered pair of the port family as (in-slice port, mirrored port), every ordered
+    pair of the site family as (site of a node / of a mirror, site of an external service), every pair and the triple of
+    listed service kinds at one site, VMs with every combination of capacities / allocation / instance-type hint."""
+    out = []
+    for a in PORT_FAM:
+        for b in PORT_FAM + [None]:
+            out.append({"nodes": [], "svcs": [_sv("pm", "PortMirror", "S", b)], "facs": [], "ifaces": [[a]]})
+    vm = {"name": "n1", "t": "VM", "site": "S", "caps": [2, 8, 10], "alloc": None, "comps": None}
+    for x in SITE_FAM + [""]:
+        for y in SITE_FAM:
+            out.append({"nodes": [dict(vm, site=x)], "svcs": [_sv("e1", "FABNetv4Ext", y), _sv("pm", "PortMirror", x, "outside")],
+                        "facs": [], "ifaces": []})
+    for t1 in LISTED:
+        for t2 in LISTED:
+            out.append({"nodes": [], "svcs": [_sv("s1", t1, "RENC", "out1"), _sv("s10", t2, "RENC", "out2")], "facs": [], "ifaces": [["in"]]})
+    out.append({"nodes": [], "svcs": [_sv("s1", "FABNetv4Ext", "RENC"), _sv("s10", "FABNetv6Ext", "RENC"), _sv("s11", "PortMirror", "RENC", "out"),
+                                      _sv("s2", "PortMirror", "RENC", "in")], "facs": [], "ifaces": [["in"]]})
+    for caps in (None, [2, 8, 10]):
+        for alloc in (None, [1, 4, 10]):
+            for hints in (None, "fabric.c4.m16.d10"):
+                out.append({"nodes": [dict(vm, caps=caps, alloc=alloc, hints=hints), dict(vm, name="n10", caps=None, hints="fabric.c4.m8.d10"),
+                                      dict(vm, name="nn", caps=None, comps=[])], "svcs": [], "facs": [], "ifaces": []})
+    # element names related as strings; a Facility-typed node named like a facility; a node named like a service
+    out.append({"nodes": [dict(vm, name="F1", t="Facility"), dict(vm, name="FF", t="Facility"), dict(vm, name="s1")],
+                "svcs": [_sv("s1", "L2Bridge", "S"), _sv("ss", "L2Bridge", "S")], "facs": ["F1", "F10"], "ifaces": []})
     return out
 
 
@@ -359,40 +452,47 @@ def probe_models():
 
 
 def gen_tspec(rng, size):
-    """A buildable experiment slice: nodes with components, optional switch and facilities, services over free ports."""
+    """A buildable experiment slice: nodes with components, optional switch and facilities, services over free ports.
+    Sites, node / component names, service-port labels and mirrored port names come from the related-name families."""
     models = probe_models()
     nic = [m for m, (_, k, _) in models.items() if k > 0]
     dedicated = [m for m in nic if not m.startswith("SharedNIC")]
     plain = [m for m, (_, k, _) in models.items() if k == 0]
-    sites = SITES[:rng.randint(1, 3)]
+    sites = rng.sample(T_SITE_FAM, rng.randint(1, 3))
     nodes, free = [], []
-    for i in range(rng.randint(1, max(1, size))):
+    for i, nname in enumerate(rng.sample(T_NODE_FAM, rng.randint(1, max(1, size)))):
         comps = []
-        for j in range(rng.randint(1, 3)):
+        for j, cname in enumerate(rng.sample(T_COMP_FAM, rng.randint(0 if rng.random() < 0.1 else 1, 3))):
             m = rng.choice(dedicated if rng.random() < 0.7 else nic + plain)
-            comps.append({"name": "c%d" % j, "model": m})
-        n = {"name": "n%d" % i, "site": rng.choice(sites), "comps": comps,
-             "caps": None if rng.random() < 0.2 else [rng.choice([1, 2, 4]), rng.choice([8, 16]), rng.choice([10, 100])]}
+            comps.append({"name": cname, "model": m})
+        caps = None if rng.random() < 0.3 else [rng.choice([1, 2, 4]), rng.choice([8, 16]), rng.choice([10, 100])]
+        n = {"name": nname, "site": rng.choice(sites), "comps": comps, "caps": caps,
+             "hints": "fabric.c4.m16.d10" if (caps is None and rng.random() < 0.6) else None}
         nodes.append(n)
         for j, c in enumerate(comps):
             for k in range(models[c["model"]][1]):
                 free.append((i, j, k))
     rng.shuffle(free)
     switch = {"name": "sw0", "site": rng.choice(sites)} if rng.random() < 0.25 else None
-    facs = [{"name": "F%d" % i, "site": rng.choice(sites + ["D"]), "bw": 10} for i in range(rng.choice([0, 0, 1, 2]))]
-    svcs, labelled = [], []
+    facs = [{"name": nm, "site": rng.choice(sites + ["D"]), "bw": 10}
+            for nm in rng.sample(["F1", "F10", "FF"], rng.choice([0, 0, 1, 2]))]
+    svcs, labelled, sublabelled = [], [], []
 
     def shared(ref):
         return nodes[ref[0]]["comps"][ref[1]]["model"].startswith("SharedNIC")
     # bridges first: their service ports carry the local names that make a mirrored port "in slice"
-    for i in range(rng.randint(0, 2)):
+    for i, ln in enumerate(rng.sample(T_PORT_FAM, rng.randint(0, 3))):
         if not free:
             break
         ref = free.pop()
-        ln = "port%d" % i if rng.random() < 0.8 else None
-        if ln:
-            labelled.append(ln)
-        svcs.append({"name": "br%d" % i, "t": "L2Bridge", "ifs": [ref], "labels": [ln],
+        # attached to a sub-interface (child of the port): the collector only looks at the ports of nodes and components
+        # (topo.interface_list), so the label of such a service port does NOT make a mirrored port in-slice
+        sub = (not shared(ref)) and rng.random() < 0.2
+        if rng.random() < 0.15:
+            ln = None
+        if ln is not None:
+            (sublabelled if sub else labelled).append(ln)
+        svcs.append({"name": "br%d" % i, "t": "L2Bridge", "ifs": [ref], "labels": [ln], "sub": sub,
                      "bw": rng.choice([None, 1, 10]), "mp": None, "fac": None, "decl": rng.random() < 0.3})
     for i in range(rng.randint(0, size + 1)):
         if not free:
@@ -404,7 +504,15 @@ def gen_tspec(rng, size):
                 continue
             ref = ded[0]
             free.remove(ref)
-            mp = rng.choice(labelled) if (labelled and rng.random() < 0.5) else "outside%d" % rng.randint(0, 1)
+            q = rng.random()
+            if labelled and q < 0.35:
+                mp = rng.choice(labelled)
+            elif sublabelled and q < 0.45:
+                mp = rng.choice(sublabelled)
+            elif q < 0.9:
+                mp = rng.choice(T_PORT_FAM)        # usually a relative (prefix, extension, case variant) of a labelled port
+            else:
+                mp = "outside%d" % rng.randint(0, 1)
             svcs.append({"name": "pm%d" % i, "t": "PortMirror", "ifs": [ref], "labels": [None], "bw": rng.choice([None, 5]),
                          "mp": mp, "fac": None, "decl": rng.random() < 0.3})
         elif r < 0.85:
@@ -420,10 +528,36 @@ def gen_tspec(rng, size):
 def corner_tspecs():
     two = {"name": "c0", "model": "SmartNIC_ConnectX_6"}
     n0 = {"name": "n0", "site": "S", "caps": [1, 10, 25], "comps": [two, dict(two, name="c1"), dict(two, name="c2")]}
-    return [{"nodes": [n0], "switch": None, "facs": [], "svcs": [
-        {"name": "br", "t": "L2Bridge", "ifs": [(0, 0, 0)], "labels": ["inport"], "bw": None, "mp": None, "fac": None},
-        {"name": "pmout", "t": "PortMirror", "ifs": [(0, 1, 0)], "labels": [None], "bw": None, "mp": "outport", "fac": None},
-        {"name": "pmin", "t": "PortMirror", "ifs": [(0, 2, 0)], "labels": [None], "bw": None, "mp": "inport", "fac": None}]}]
+
+    def sv(name, t, ref, label=None, mp=None, **kw):
+        d = {"name": name, "t": t, "ifs": [ref] if ref is not None else [], "labels": [label] if ref is not None else [],
+             "bw": None, "mp": mp, "fac": None}
+        d.update(kw)
+        return d
+    n1 = {"name": "n1", "site": "RENC", "caps": None, "hints": "fabric.c4.m16.d10",
+          "comps": [dict(two, name="c1"), dict(two, name="c10"), dict(two, name="cc")]}
+    big = "HundredGigE0/0/0/1"
+    return [
+        {"nodes": [n0], "switch": None, "facs": [], "svcs": [
+            sv("br", "L2Bridge", (0, 0, 0), "inport"), sv("pmout", "PortMirror", (0, 1, 0), mp="outport"),
+            sv("pmin", "PortMirror", (0, 2, 0), mp="inport")]},
+        # the slice owns HundredGigE0/0/0/1 and mirrors three foreign ports whose names extend / shorten it, and its own
+        {"nodes": [n1], "switch": None, "facs": [], "svcs": [
+            sv("br", "L2Bridge", (0, 0, 0), big), sv("pm10", "PortMirror", (0, 1, 0), mp=big + "0"),
+            sv("pmsub", "PortMirror", (0, 1, 1), mp=big + ".100"), sv("pmshort", "PortMirror", (0, 2, 0), mp=big[:-1]),
+            sv("pmown", "PortMirror", (0, 2, 1), mp=big)]},
+        # two / three services of different listed kinds at one site; a VM sized by an instance-type hint only
+        {"nodes": [n1], "switch": None, "facs": [], "svcs": [
+            sv("v4", "FABNetv4Ext", (0, 0, 0)), sv("v6", "FABNetv6Ext", (0, 1, 0)), sv("pm", "PortMirror", (0, 2, 0), mp="foreign")]},
+        # a bridge on a sub-interface: its service-port label is not an in-slice port for the collector
+        {"nodes": [n1], "switch": None, "facs": [], "svcs": [
+            sv("brsub", "L2Bridge", (0, 0, 0), "p1.100", sub=True), sv("br", "L2Bridge", (0, 0, 1), "p1"),
+            sv("pm", "PortMirror", (0, 1, 0), mp="p1.100"), sv("pm2", "PortMirror", (0, 2, 0), mp="p1")]},
+        # nodes without components (every service type needs >= 1 interface to validate, so a validated slice has no
+        # service without interfaces; the sliver-level folds above have services without any interface throughout)
+        {"nodes": [dict(n1, comps=[]), dict(n1, name="n10", site="RENC1", caps=[2, 8, 10], hints=None, comps=[])], "switch": None,
+         "facs": [], "svcs": []},
+    ]
 
 
 def build_topology(ts, node_order, svc_order, validate=True):
@@ -449,6 +583,9 @@ def _build_into(t, ts, node_order, svc_order, validate=True):
         kw = {}
         if n["caps"] is not None:
             kw["capacities"] = Capacities(core=n["caps"][0], ram=n["caps"][1], disk=n["caps"][2])
+        if n.get("hints") is not None:
+            from fim.slivers.capacities_labels import CapacityHints
+            kw["capacity_hints"] = CapacityHints(instance_type=n["hints"])
         node = t.add_node(name=n["name"], site=n["site"], **kw)
         for j, c in enumerate(n["comps"]):
             comps[(i, j)] = node.add_component(name=c["name"], model_type=ComponentModelType[c["model"]])
@@ -462,10 +599,12 @@ def _build_into(t, ts, node_order, svc_order, validate=True):
     for si in svc_order:
         s = ts["svcs"][si]
         ifs = [iface(r) for r in s["ifs"]]
+        if s.get("sub"):
+            ifs = [x.add_child_interface(name="sub%d" % si, labels=Labels(vlan=str(100 + si))) for x in ifs]
         kw = {}
         if s["bw"] is not None:
             kw["capacities"] = Capacities(bw=s["bw"])
-        if s.get("decl"):
+        if s.get("decl") and s["ifs"]:
             # site declared by the user (must be the one validate() would infer); otherwise inferred by validate()
             kw["site"] = ts["nodes"][s["ifs"][0][0]]["site"]
         if s["t"] == "PortMirror":
@@ -504,7 +643,9 @@ def model_of_tspec(ts, t):
         if s["fac"] is not None:
             sites.add(ts["facs"][s["fac"]]["site"])
         sd[s["name"]] = _sv(s["name"], s["t"], sites.pop() if len(sites) == 1 else None, s["mp"], s["bw"])
-        ifaces.extend([ln] if ln is not None else [] for ln in s["labels"])
+        if not s.get("sub"):
+            # (the peer of a sub-interface is not reached from topo.interface_list: its label stays outside the slice)
+            ifaces.extend([ln] if ln is not None else [] for ln in s["labels"])
     nodes = [nd[k] for k in t.nodes.keys()]
     svcs = [sd[k] for k in t.network_services.keys()]
     return {"nodes": nodes, "svcs": svcs, "facs": list(t.facilities.keys()), "ifaces": ifaces}
@@ -525,7 +666,7 @@ def raw_of_tspec(ts, sl):
         u = user.get(s["name"])
         if u is not None:
             r["os"] = [ts["nodes"][x[0]]["site"] for x in u["ifs"]] + ([ts["facs"][u["fac"]]["site"]] if u["fac"] is not None else [])
-            r["site"] = ts["nodes"][u["ifs"][0][0]]["site"] if u.get("decl") else None
+            r["site"] = ts["nodes"][u["ifs"][0][0]]["site"] if (u.get("decl") and u["ifs"]) else None
         else:
             # services created with their node / component / facility: every port belongs to that one owner
             r["os"] = [s["site"]] * (nports if s["t"] == "P4" and ts["switch"] and s["name"] == ts["switch"]["name"] + "-ns" else 1)
@@ -866,8 +1007,11 @@ def topo_runs(ctx, n=None, k=None):
     key = (n, k)
     cache = ctx.__dict__.setdefault("_c11_topo", {})
     if key not in cache:
-        tcases, trng = _tcases(ctx, "topo", n or ctx.scale(18, 220))
-        cache[key] = [(ts, run_tspec(ts, trng, k or ctx.scale(3, 4))) for ts in tcases]
+        tcases, trng = _tcases(ctx, "topo", n or ctx.scale(14, 200))
+        def weight(ts):
+            return len(ts["nodes"]) + sum(len(n["comps"]) for n in ts["nodes"]) + len(ts["svcs"])
+        # (every lookup of the topology API scans the whole store: the cost of one run grows with the square of the slice)
+        cache[key] = [(ts, run_tspec(ts, trng, k or (ctx.scale(3, 4) if weight(ts) <= 8 else ctx.scale(2, 3)))) for ts in tcases]
     return cache[key]
 
 
@@ -876,7 +1020,7 @@ def topo_runs(ctx, n=None, k=None):
 
 def _cases(ctx, tag, n, size=4):
     rng = ctx.sub_rng(tag)
-    out = [{k: v for k, v in c.items() if k != "_what"} for _, c in load_corpus() if "nodes" in c] + corner_slices()
+    out = [{k: v for k, v in c.items() if k != "_what"} for _, c in load_corpus() if "nodes" in c] + corner_slices() + relation_slices()
     for i in range(n):
         out.append(gen_slice(rng, 1 + (i % size) + (2 if i % 7 == 0 else 0)))
     return out, rng
@@ -991,21 +1135,61 @@ def full_request(res):
         res.violation("C11:raises:" + r[1], "transform_to_pdp_request raised on a full request (attribute without a table row?)", case)
 
 
+def _count_relations(res, sl, tag):
+    for r in mirror_relations(sl):
+        res.count("%s:mirrored-port-vs-in-slice-port:%s" % (tag, r))
+    for r in site_relations(sl):
+        res.count("%s:site-names:%s" % (tag, r))
+    if any(n["t"] == "VM" and n.get("caps") is None and n.get("alloc") is None for n in sl["nodes"]):
+        res.count("%s:vm-without-capacities" % tag)
+    kinds = {}
+    for s in sl["svcs"]:
+        if s["t"] in LISTED and s["site"]:
+            kinds.setdefault(s["site"], set()).add(s["t"])
+    if any(len(v) >= 2 for v in kinds.values()):
+        res.count("%s:several-listed-kinds-at-one-site" % tag)
+
+
 def oracle(ctx, res, n=None, nt=None):
     cases, rng = _cases(ctx, "oracle", n or ctx.scale(250, 4000))
     full_request(res)
     for fn, c in load_corpus():
         res.count("corpus:" + fn)
     for sl in cases:
+        _count_relations(res, sl, "slice")
         eval_slice(sl, rng, res, "fold", 24)
         eval_slice(sl, rng, res, "dispatch", 4)
     for ts, runs in topo_runs(ctx, nt):
+        for run in runs[:1]:
+            if "slice" in run:
+                _count_relations(res, run["slice"], "topology")
+        if any(s.get("sub") for s in ts["svcs"]):
+            res.count("topology:service-on-sub-interface")
+        if any(not s["ifs"] for s in ts["svcs"]):
+            res.count("topology:service-without-interfaces")
         judge_tspec(ts, runs, res)
     res.sample({"slice": cases[len(cases) // 2], "checked": "completeness, order independence over stored orders, PDP request "
                 "shape, accounting tallies; topology vs ASM on real topologies"})
 
 
+def small_scope(res, rng):
+    """Exhaustive over the port family: (two in-slice ports, one mirror) and (one in-slice port, two mirrors at two sites)."""
+    for a in PORT_FAM:
+        for b in PORT_FAM:
+            for c in PORT_FAM:
+                eval_slice({"nodes": [], "svcs": [_sv("pm", "PortMirror", "S", c)], "facs": [], "ifaces": [[a], [b]]}, rng, res, "fold", 2)
+                eval_slice({"nodes": [], "svcs": [_sv("pm", "PortMirror", "S", b), _sv("pm2", "PortMirror", "T", c)], "facs": [],
+                            "ifaces": [[a]]}, rng, res, "fold", 2)
+    for x in SITE_FAM:
+        for y in SITE_FAM:
+            for t1 in LISTED:
+                for t2 in LISTED:
+                    eval_slice({"nodes": [], "svcs": [_sv("s1", t1, x, "o1"), _sv("s10", t2, y, "o2")], "facs": [], "ifaces": []},
+                               rng, res, "fold", 2)
+
+
 def search(ctx, res, broken):
+    small_scope(res, ctx.sub_rng("small-scope"))
     oracle(ctx, res, n=ctx.scale(800, 6000), nt=ctx.scale(30, 200))
 
 
